@@ -47,6 +47,10 @@ pub struct CaseOut {
     pub emitted_sv: String,
     pub stim: Option<Stimulus>,
     pub constructs: Vec<String>,
+    pub sign_decls: Vec<(String, String, String)>,
+    pub sign_uses: usize,
+    /// explicit-`unsigned` modules only: does svref(original) differ from svref(original with `unsigned` → `signed`)?
+    pub signed_twin_differs: Option<bool>,
 }
 
 fn design_of(m: &SvModule, veryl: &str) -> Design {
@@ -144,6 +148,15 @@ pub fn run_module(m: &SvModule, stim: &Stimulus) -> CaseOut {
         }
     };
     out.constructs = orig.constructs.clone();
+    out.sign_decls = m.sign_decls.clone();
+    out.sign_uses = m.sign_uses;
+    if m.sign_decls.iter().any(|d| d.2 == "unsigned") {
+        // non-vacuity of the sign-sensitive uses: the same module with `signed` instead of `unsigned` must behave differently
+        let twin = m.text.replace(" unsigned", " signed");
+        out.signed_twin_differs = drive::run_svref(&[twin], &m.top, "clk", "rst", &m.inputs, &m.outputs, stim, proto, false)
+            .ok()
+            .map(|t| drive::compare_sv(&orig, &t, &m.outputs).mismatch.is_some());
+    }
     let tr = match veryl_translator::translate_str(&m.text, "m.sv", true, NewlineStyle::Auto) {
         Ok(t) => t,
         Err(e) => {
@@ -344,6 +357,27 @@ fn report(run: &Run, i: u64, phase: &str, o: &CaseOut, pass: &Mutex<BTreeMap<Str
             run.note(format!("case {i} [{fk}]: Veryl simulator (third witness) {} while both svref runs agree — C01's domain", o.third_witness));
         }
     }
+    for (site, ty, sg) in &o.sign_decls {
+        run.count(&format!("decls_with_{}", match sg.as_str() { "unsigned" => "explicit_unsigned", "signed" => "explicit_signed", _ => "no_signing_keyword" }), 1);
+        run.seen("signing_declaration_shapes", &format!("{site}:{ty}:{sg}"));
+        if sg == "unsigned" {
+            run.count("sign_sensitive_uses_of_explicit_unsigned", o.sign_uses as i64 / o.sign_decls.len().max(1) as i64);
+            if matches!(ty.as_str(), "logic" | "bit" | "reg") {
+                run.count("decls_with_explicit_unsigned_on_vector_type", 1);
+            }
+        }
+    }
+    if !o.sign_decls.is_empty() {
+        run.count("sign_sensitive_uses_total", o.sign_uses as i64);
+    }
+    match o.signed_twin_differs {
+        Some(true) => run.count("explicit_unsigned_modules_whose_signed_twin_behaves_differently", 1),
+        Some(false) => {
+            run.count("explicit_unsigned_modules_whose_signed_twin_behaves_the_same", 1);
+            run.note(format!("case {i} [{fk}]: the `signed` twin of this explicit-unsigned module behaves identically (uses not sign-sensitive on this stimulus)"));
+        }
+        None => {}
+    }
     for c in &o.constructs {
         run.seen("svref_constructs", c);
     }
@@ -353,7 +387,7 @@ fn report(run: &Run, i: u64, phase: &str, o: &CaseOut, pass: &Mutex<BTreeMap<Str
     if o.stage != "svgen_bug" && o.stage != "svref_unsupported" {
         run.nontrivial(hash_str(&o.sv));
     }
-    if phase == "single" {
+    if phase == "single" || phase == "sgn-single" {
         let mut p = pass.lock().unwrap();
         let e = p.entry(o.features[0].clone()).or_insert((0, 0));
         e.0 += 1;
@@ -368,7 +402,18 @@ fn gen_case(seed: u64, tag: &str, i: u64, feats: &[&str], cycles: usize) -> (SvM
     let mut rng = Rng::for_case(seed, tag, i);
     let m = svgen::generate(&mut rng, feats);
     let d = design_of(&m, "");
-    let stim = stimulus(&d, &mut rng, cycles);
+    let mut stim = stimulus(&d, &mut rng, cycles);
+    // ports declared by a `sgn_port_*` feature (`u<N>`): drive the top bit high in two cycles out of three
+    for (k, p) in m.inputs.iter().enumerate() {
+        if p.name.starts_with('u') {
+            for (c, cyc) in stim.cycles.iter_mut().enumerate() {
+                if c % 3 != 2 {
+                    let top = p.width - 1;
+                    cyc.inputs[k].payload[top / 64] |= 1u64 << (top % 64);
+                }
+            }
+        }
+    }
     (m, stim)
 }
 
@@ -434,6 +479,29 @@ pub fn main(args: Args) {
             },
         );
     }
+    // phase 1b: declaration-signing features (site x type x {none, signed, unsigned}), one per module
+    let sgn: Arc<Vec<String>> = Arc::new(svgen::sgn_features());
+    let per_sgn = args.budget("per_sgn_feature", 2, 20);
+    {
+        let (run2, pass2, sgn2) = (run.clone(), pass.clone(), sgn.clone());
+        par_cases(
+            sgn.len() as u64 * per_sgn,
+            args.jobs.min(16),
+            STACK_64M,
+            move |i| {
+                let f = sgn2[(i as usize) % sgn2.len()].clone();
+                let (m, stim) = gen_case(seed, "C22sgn", i, &[f.as_str()], cycles);
+                run_module(&m, &stim)
+            },
+            move |i, r| {
+                run2.eval();
+                match r {
+                    Err(p) => run2.note(format!("sgn case {i}: panic at {}: {}", p.location, p.message.lines().next().unwrap_or(""))),
+                    Ok(o) => report(&run2, i, "sgn-single", &o, &pass2),
+                }
+            },
+        );
+    }
     // phase 2: combinations of the features that passed alone (in every module of phase 1)
     let passing: Vec<&'static str> = {
         let p = pass.lock().unwrap();
@@ -471,13 +539,58 @@ pub fn main(args: Args) {
             },
         );
     }
+    // phase 2b: every signing feature that passed alone, combined with one or two base features that passed alone
+    let sgn_passing: Vec<String> = {
+        let p = pass.lock().unwrap();
+        sgn.iter().filter(|f| p.get(*f).map(|(n, ok)| *n > 0 && n == ok).unwrap_or(false)).cloned().collect()
+    };
+    run.set_extra("signing_features_passing_alone", json!(sgn_passing));
+    {
+        let p = pass.lock().unwrap();
+        let failing: Vec<String> = sgn.iter().filter_map(|f| p.get(f).filter(|(n, ok)| ok < n).map(|(n, ok)| format!("{f}:{ok}/{n}"))).collect();
+        run.set_extra("signing_features_failing_alone", json!(failing));
+    }
+    let sgn_combos = args.budget("sgn_combos", 40, 1500);
+    // base features that do not declare header parameters / extra ports of their own keep the combination simple
+    let base_pool: Vec<&'static str> = passing.iter().copied().filter(|f| !f.starts_with("param_") && !f.starts_with("ff_")).collect();
+    if !sgn_passing.is_empty() && !base_pool.is_empty() {
+        let (run2, pass2) = (run.clone(), pass.clone());
+        par_cases(
+            sgn_combos,
+            args.jobs.min(16),
+            STACK_64M,
+            move |i| {
+                let mut rng = Rng::for_case(seed, "C22sgncombo", i);
+                let sf = sgn_passing[(i as usize) % sgn_passing.len()].clone();
+                let mut fs: Vec<String> = vec![sf];
+                let k = 1 + rng.usize(2);
+                for _ in 0..k {
+                    let b = rng.pick(&base_pool).to_string();
+                    if !fs.contains(&b) {
+                        fs.push(b);
+                    }
+                }
+                fs.sort();
+                let fr: Vec<&str> = fs.iter().map(|s| s.as_str()).collect();
+                let (m, stim) = gen_case(seed, "C22sgncombo-gen", i, &fr, cycles);
+                run_module(&m, &stim)
+            },
+            move |i, r| {
+                run2.eval();
+                match r {
+                    Err(p) => run2.note(format!("sgn combo {i}: panic at {}: {}", p.location, p.message.lines().next().unwrap_or(""))),
+                    Ok(o) => report(&run2, i, "sgn-combo", &o, &pass2),
+                }
+            },
+        );
+    }
     let gen_ = run.get_count("modules_generated");
     let uns = run.get_count("modules_svref_unsupported");
     if gen_ > 0 && uns * 2 > gen_ {
         run.inconclusive(format!("svref could not interpret {uns} of {gen_} modules"));
     }
-    if args.get("per_feature").is_some() || args.get("combos").is_some() {
+    if args.get("per_feature").is_some() || args.get("combos").is_some() || args.get("per_sgn_feature").is_some() || args.get("sgn_combos").is_some() {
         run.finish(&[]);
     }
-    run.finish(&[("programs", 60), ("features_exercised", 40), ("programs_first_clause_ok", 10), ("port_value_comparisons", 500)]);
+    run.finish(&[("programs", 60), ("features_exercised", 40), ("programs_first_clause_ok", 10), ("port_value_comparisons", 500), ("decls_with_explicit_unsigned", 20), ("decls_with_explicit_unsigned_on_vector_type", 10), ("decls_with_explicit_signed", 20), ("decls_with_no_signing_keyword", 20), ("sign_sensitive_uses_of_explicit_unsigned", 80), ("explicit_unsigned_modules_whose_signed_twin_behaves_differently", 15), ("signing_declaration_shapes", 40)]);
 }
